@@ -355,71 +355,73 @@ func main() {
 			var c Case
 			_ = report.Recase(raw, &c)
 			fmt.Printf("driver %s: %s: %s\nschedule: %v\n", c.Driver, c.Kind, c.Msg, c.Schedule)
-			for _, d := range drivers {
-				if d.name != c.Driver {
-					continue
-				}
-				for rep := 0; rep < 2; rep++ {
-					s := vsched.NewSched()
-					w := harness{d: d, observer: c.Observer}.Start(s)
-					ok := true
-					for _, a := range c.Schedule {
-						en := false
-						for _, e := range s.Enabled() {
-							if e == a {
-								en = true
+			for _, observer := range []bool{false, true} {
+				for _, d := range drivers {
+					if d.name != c.Driver {
+						continue
+					}
+					for rep := 0; rep < 2; rep++ {
+						s := vsched.NewSched()
+						w := harness{d: d, observer: c.Observer}.Start(s)
+						ok := true
+						for _, a := range c.Schedule {
+							en := false
+							for _, e := range s.Enabled() {
+								if e == a {
+									en = true
+								}
 							}
+							if !en {
+								fmt.Printf("  replay %d: action %v not enabled\n", rep, a)
+								ok = false
+								break
+							}
+							s.Step(a)
 						}
-						if !en {
-							fmt.Printf("  replay %d: action %v not enabled\n", rep, a)
-							ok = false
-							break
+						if ok {
+							fmt.Printf("  replay %d: state %s\n  problems: %v\n", rep, w.Key(), w.CheckState())
 						}
-						s.Step(a)
+						s.Close()
 					}
-					if ok {
-						fmt.Printf("  replay %d: state %s\n  problems: %v\n", rep, w.Key(), w.CheckState())
-					}
-					s.Close()
 				}
 			}
+			return
 		}
-		return
-	}
-	r := report.New("C07")
-	if !instrumented {
-		r.NotExhaustive("instrumentation incomplete (cmd/instr could not model a construct of the current sources): nothing was explored")
-		r.Note("see instr output; no verdict")
-		r.Sample("not explored")
-		r.Finish(report.Coverage{States: 1, Transitions: 1, Evaluations: 1, Nontrivial: 0, Rule: "instrumentation incomplete"})
-	}
-	var states, trans, execs, terms, branching int64
-	outcomes := report.NewDistinctSet()
-	for _, d := range drivers {
-		res := vsched.Explore(harness{d: d, observer: r.Thorough()}, vsched.Options{MaxStates: r.Pick(300000, 3000000)})
-		tengo.VerifNewVM = nil
-		states += int64(res.States)
-		trans += int64(res.Transitions)
-		execs += int64(res.Executions)
-		terms += int64(res.Terminals)
-		branching += int64(res.Branching)
-		for o, n := range res.Outcomes {
-			r.Outcome(d.name + ": " + o)
-			outcomes.Add(d.name + ": " + o)
-			_ = n
+		r := report.New("C07")
+		if !instrumented {
+			r.NotExhaustive("instrumentation incomplete (cmd/instr could not model a construct of the current sources): nothing was explored")
+			r.Note("see instr output; no verdict")
+			r.Sample("not explored")
+			r.Finish(report.Coverage{States: 1, Transitions: 1, Evaluations: 1, Nontrivial: 0, Rule: "instrumentation incomplete"})
 		}
-		r.Set("driver/"+d.name, map[string]interface{}{"script": d.src, "states": res.States, "transitions": res.Transitions,
-			"executions": res.Executions, "terminal_states": res.Terminals, "max_depth": res.MaxDepth, "branching_states": res.Branching, "outcomes": res.Outcomes})
-		if res.Capped {
-			r.NotExhaustive(fmt.Sprintf("driver %s: state cap reached after %d states", d.name, res.States))
+		var states, trans, execs, terms, branching int64
+		outcomes := report.NewDistinctSet()
+		for _, d := range drivers {
+			res := vsched.Explore(harness{d: d, observer: observer}, vsched.Options{MaxStates: r.Pick(300000, 3000000)})
+			tengo.VerifNewVM = nil
+			states += int64(res.States)
+			trans += int64(res.Transitions)
+			execs += int64(res.Executions)
+			terms += int64(res.Terminals)
+			branching += int64(res.Branching)
+			for o, n := range res.Outcomes {
+				r.Outcome(d.name + ": " + o)
+				outcomes.Add(d.name + ": " + o)
+				_ = n
+			}
+			r.Set(fmt.Sprintf("driver/%s/observer=%v", d.name, observer), map[string]interface{}{"script": d.src, "states": res.States, "transitions": res.Transitions,
+				"executions": res.Executions, "terminal_states": res.Terminals, "max_depth": res.MaxDepth, "branching_states": res.Branching, "outcomes": res.Outcomes})
+			if res.Capped {
+				r.NotExhaustive(fmt.Sprintf("driver %s: state cap reached after %d states", d.name, res.States))
+			}
+			for _, m := range res.Internal {
+				r.Internal("driver %s: %s", d.name, m)
+			}
+			for _, v := range res.Violations {
+				r.Violation("driver="+d.name+"/"+sigOf(v.Kind, v.Msg), v.Msg, Case{Observer: observer, Driver: d.name, Kind: v.Kind, Msg: v.Msg, Schedule: v.Schedule, Trace: tail(v.Trace, 40)})
+			}
+			r.Sample(map[string]interface{}{"driver": d.name, "script": d.src, "threads": "caller(RunContext; Set; RunContext; Get) | vm goroutine(s) | canceller", "outcomes": res.Outcomes})
 		}
-		for _, m := range res.Internal {
-			r.Internal("driver %s: %s", d.name, m)
-		}
-		for _, v := range res.Violations {
-			r.Violation("driver="+d.name+"/"+sigOf(v.Kind, v.Msg), v.Msg, Case{Observer: r.Thorough(), Driver: d.name, Kind: v.Kind, Msg: v.Msg, Schedule: v.Schedule, Trace: tail(v.Trace, 40)})
-		}
-		r.Sample(map[string]interface{}{"driver": d.name, "script": d.src, "threads": "caller(RunContext; Set; RunContext; Get) | vm goroutine(s) | canceller", "outcomes": res.Outcomes})
 	}
 	r.Set("executions", execs)
 	r.Set("terminal_states", terms)
